@@ -114,12 +114,19 @@ func isLenTerm(t *Term) bool { return t != nil && t.Op == "Call" && t.S == "len"
 // atomOf normalises one guard. Comparisons put constants on the right,
 // integer bounds are closed (x < c  ==>  x <= c-1), lengths compared with
 // zero use == / !=, and s == "" becomes len(s) == 0.
-func (tb *TB) atomOf(g Guard) Atom {
-	v := g.Cond
+func (tb *TB) atomOf(g Guard) Atom { return tb.atomOfRes(g, nil) }
+
+// atomOfRes is atomOf with the operands of a comparison passed through res
+// first (used to resolve Phis along an enumerated path).
+func (tb *TB) atomOfRes(g Guard, res func(ssa.Value) ssa.Value) Atom {
+	if res == nil {
+		res = func(v ssa.Value) ssa.Value { return v }
+	}
+	v := res(g.Cond)
 	pol := g.Pol
 	for {
 		if u, ok := v.(*ssa.UnOp); ok && u.Op == token.NOT {
-			v = u.X
+			v = res(u.X)
 			pol = !pol
 			continue
 		}
@@ -129,7 +136,7 @@ func (tb *TB) atomOf(g Guard) Atom {
 	case *ssa.BinOp:
 		op := x.Op.String()
 		if _, ok := negOp[op]; ok {
-			X, Y := tb.Term(x.X), tb.Term(x.Y)
+			X, Y := tb.Term(res(x.X)), tb.Term(res(x.Y))
 			if !pol {
 				op = negOp[op]
 			}
